@@ -703,8 +703,8 @@ def finishCore (T : Tables) (cfg : Cfg) (c : Core) (m : Mode) (tok : List Byte) 
     | .str .symbol => c.fail .parse
     | .esc => c.fail .parse
     | .rune => c.fail .parse
-    | .plain .sharp => c.fail .parse
-    | .plain .sharpNum => c.fail .parse
+    | .plain .sharp => c.fail (.incomplete c.starts.length)
+    | .plain .sharpNum => c.fail (.incomplete c.starts.length)
     | .plain .blockComment => c.fail (.incomplete c.starts.length)
     | .plain .blockEnd => c.fail (.incomplete c.starts.length)
     | .plain _ => c
